@@ -34,7 +34,7 @@ static var und_next(var self, var curr) { int p = und_pos(self, curr); if (p < 0
 static var und_prev(var self, var curr) { int p = und_pos(self, curr); if (p < 0) { cv_bad_cursor++; return Terminal; } return p > 0 ? und_elem(self, p - 1) : Terminal; }
 static var und_type(var self) { return Int; }
 static struct Iter cv_und_iter = { und_init, und_next, und_last, und_prev, und_type };
-var method_at_offset(var self, var cls, size_t offset, const char* m) { __CPROVER_assert((self == und1 || self == und2) && cls == Iter, "harness: method lookup on an underlying iterable"); return &cv_und_iter; }
+var method_at_offset(var self, var cls, size_t offset, const char* m) { CV_LIMIT((self == und1 || self == und2) && cls == Iter, "harness: method lookup on an underlying iterable"); return &cv_und_iter; }
 static size_t Zip_Len(var self);
 size_t len(var self) {
   if (self == und1 || self == und2) return und_n(self);
